@@ -8,8 +8,9 @@ func init() {
 		Explain: "The alignment semantics over all histories is NOT decided (it quantifies over sequences of feeds). Decided are structural necessary conditions of it, on every path of the code: " +
 			"(MARK) stop times and trips are marked past only while unmarked, with the feed's time; (UPD) StopTime.update assigns every field on every path, from the update's stop id, arrival, departure and track, the feed time, and clears MarkedPast; " +
 			"(PART) Trip.update partitions the trip's current list against this update's stop time updates; entries before the first updated stop are only marked past; every aligned entry is refreshed by StopTime.update on every path; the list is trimmed to len(past)+len(updated); the remaining updates are appended at the tail in order; createPartition precedes every return of an applied update (an update without stop time updates is partitioned too); between createPartition and the end of the mark / refresh loops the list is not given another backing array, directly or by a helper called in between (the partition points into it); in the pairing loop of createPartition the outcome `stop ids differ` leaves the loop; createPartition searches the update's first stop in the whole list by stop id only, past is the prefix before it, aligned pairs point into the journal's own list, new is the tail of the updates. " +
-			"These are the places where each clause of the property is implemented; breaking one breaks the behaviour, but their conjunction is not claimed to imply it. (GET) the nil-safe getters the journal reads updates through answer their field or the zero value and write nothing; (UID) the entry an update is aligned against is kept under a UID that drops exactly the first six characters of the trip id.",
+			"These are the places where each clause of the property is implemented; breaking one breaks the behaviour, but their conjunction is not claimed to imply it. (GET) the nil-safe getters the journal reads updates through answer their field or the zero value and write nothing; (UID) the entry an update is aligned against is kept under a UID that drops exactly the first six characters of the trip id. (JTR) every trip update of every feed reaches update-or-create of its entry.",
 		Rules: []Rule{
+			{Name: "JTR", Doc: "every trip update of every feed reaches the update of its entry (created when absent, whatever the update carries): an update that is skipped leaves the list without the stops of that feed", MinInstances: 10, Run: runJournalTrips},
 			{Name: "UID", Doc: "the updates of a trip are aligned against the list of the entry kept under its UID: the UID drops the six-character origin-time prefix of the trip id and nothing else, so distinct trips of one start instant keep distinct lists", MinInstances: 1, Run: func(c *Ctx) { runUIDSuffix(c, "UID") }},
 			{Name: "GET", Doc: "the journal reads arrival, departure and vehicle of an update through the nil-safe getters of the realtime types: each answers what its field points to or the zero value, and writes nothing", MinInstances: 3, Run: func(c *Ctx) { runPlainGetters(c, "GET") }},
 			{Name: "ACCT", Doc: "an update is applied unless the trip is assigned and the update carries no vehicle (tested on the vehicle itself); the stop times of an applied update are always processed", MinInstances: 1, Run: func(c *Ctx) {
@@ -26,8 +27,10 @@ func init() {
 		Explain: "The accounting semantics over all histories and windows is NOT decided. Decided are structural necessary conditions, on every path of the code: " +
 			"(UID) the UID used as map key and the UID recorded in the entry are built identically from (StartDate.Add(StartTime), trip id) as unix start + id without its 6-character prefix; " +
 			"(ACCT) every trip of a feed is applied by Trip.update and recorded as present on every path of the per-trip loop; entries are created only when absent; trips of the previous feed absent from the current one are marked past with the current feed's time and the present-set is replaced each feed; selection skips exactly on start before window, window end before start, or never assigned; Trip.update returns before any store for an assigned trip updated without a vehicle and otherwise records identifier fields, vehicle id, assignment, last-observed, clears MarkedPast and counts the update on every path; marking a trip past visits all its stops; " +
-			"(G6) the result is built from sorted UIDs. Not claimed: that these imply the accounting over histories. (GET) as in C14: a getter that fills a field in would make every update look assigned. (MARK) the nil test of MarkedPast is the only condition of the stamp. (UID) the suffix is the id without its first six characters.",
+			"(G6) the result is built from sorted UIDs. Not claimed: that these imply the accounting over histories. (GET) as in C14: a getter that fills a field in would make every update look assigned. (MARK) the nil test of MarkedPast is the only condition of the stamp. (UID) the suffix is the id without its first six characters. (NYCT, LINK) the stale filter the directory source applies drops only unassigned trips, and the links that decide whether an update carries a vehicle are never deleted.",
 		Rules: []Rule{
+			{Name: "NYCT", Doc: "the directory source filters stale unassigned trips before the journal sees a feed: the filter drops a trip only when it is unassigned (decision table of the stale test, guards of its call)", MinInstances: 9, Run: runNyctTrips},
+			{Name: "LINK", Doc: "whether an update carries a vehicle is decided by the trip<->vehicle links of the parsed feed: link discipline of ParseRealtime (both association tables written together, no entry of another trip removed)", MinInstances: 5, Run: runLinkRules},
 			{Name: "UID", Doc: "one entry per distinct (start instant, trip-id suffix): the suffix is the id without its first six characters", MinInstances: 1, Run: func(c *Ctx) { runUIDSuffix(c, "UID") }},
 			{Name: "GET", Doc: "the journal reads the vehicle of an update through the nil-safe getters of the realtime types: each answers what its field points to or the zero value, and writes nothing (a getter that fills the field in makes every update look assigned)", MinInstances: 3, Run: func(c *Ctx) { runPlainGetters(c, "GET") }},
 			{Name: "SCAN", Doc: "a loop that does something for each element is not left early (no break out of a processing loop)", MinInstances: 1, Run: func(c *Ctx) { runFullScan(c, journalFns(c), "SCAN") }},
